@@ -73,6 +73,11 @@ func vC18Msg() *Msg {
 	case 4: // an additional record already present (ARCOUNT 1 -> 2)
 		m.Question = []Question{{Name: short, Qtype: TypeTXT, Qclass: ClassINET}}
 		m.Extra = []RR{&TXT{Hdr: RR_Header{Name: short, Rrtype: TypeTXT, Class: ClassINET, Ttl: 1}, Txt: []string{string([]byte{vcU8("txt", 't')})}}}
+	case 6: // 255 additional records already present: ARCOUNT 0x00FF -> 0x0100
+		m.Question = []Question{{Name: short, Qtype: TypeA, Qclass: ClassINET}}
+		for i := 0; i < 255; i++ {
+			m.Extra = append(m.Extra, &NULL{Hdr: RR_Header{Name: ".", Rrtype: TypeNULL, Class: ClassINET}})
+		}
 	default: // update-style: no question, records in authority
 		m.Ns = []RR{&MX{Hdr: RR_Header{Name: short, Rrtype: TypeMX, Class: ClassINET, Ttl: 60}, Preference: vcU16("pref", 10), Mx: "m." + short}}
 	}
@@ -84,10 +89,10 @@ func vC18Msg() *Msg {
 	return m
 }
 
-// vC18Shape: message shape; C18.shapes restricts to the first k of the order 1,2,4,5,0,3.
+// vC18Shape: message shape; C18.shapes restricts to the first k of the order 1,2,4,5,0,3,6.
 func vC18Shape() int {
-	order := []int{1, 2, 4, 5, 0, 3}
-	return order[vChoice("shape", vParam("C18.shapes", 6))]
+	order := []int{1, 2, 4, 5, 0, 3, 6}
+	return order[vChoice("shape", vParam("C18.shapes", 7))]
 }
 
 func vC18Sig(alg uint8, signer string) *SIG {
@@ -96,10 +101,15 @@ func vC18Sig(alg uint8, signer string) *SIG {
 	vAssume(s.KeyTag != 0)
 	s.SignerName = signer
 	s.Algorithm = alg
-	// times relative to the clock reading of this run (engine: symbolic instant; native replay: real clock)
-	now := uint32(vNow())
-	s.Inception = now - vcU32("dinc", 300)
-	s.Expiration = now + vcU32("dexp", 300)
+	// times relative to the clock reading of this run (engine: symbolic instant; native replay: real clock).
+	// Offsets are signed and at most 2^30 s, the clock is between 2^30 and 2^31 (2004..2038), so that no 32-bit
+	// wrap-around occurs and every condition on the window depends on the offsets only.
+	now := vNow()
+	vAssume(now >= 1<<30 && now < 1<<31)
+	dinc, dexp := int32(vcU32("dinc", 300)), int32(vcU32("dexp", 300))
+	vAssume(dinc >= -(1<<30) && dinc <= 1<<30 && dexp >= -(1<<30) && dexp <= 1<<30)
+	s.Inception = uint32(now - int64(dinc))
+	s.Expiration = uint32(now + int64(dexp))
 	return s
 }
 
@@ -170,6 +180,17 @@ func H_C18_sign() {
 	err := s.Verify(key, out)
 	vObserve("verify", err)
 	vAssert(err == nil, "signed-message-verifies")
+	// signing again with the same SIG value (as a client signing a second query does) verifies as well
+	if vChoice("resign", 2) == 1 {
+		m := new(Msg)
+		m.Id = vU16("id2")
+		m.Question = []Question{{Name: "second.ex.", Qtype: TypeSOA, Qclass: ClassINET}}
+		out2, err2 := s.Sign(vSigner{alg}, m)
+		vAssert(err2 == nil, "second-sign-succeeds")
+		if err2 == nil {
+			vAssert(s.Verify(key, out2) == nil, "message-signed-with-a-reused-sig-verifies")
+		}
+	}
 	// the SIG record found when unpacking the signed octets verifies as well
 	m2 := new(Msg)
 	uerr := m2.Unpack(out)
@@ -291,10 +312,22 @@ func H_C18_window() {
 	now := uint32(vNow())
 	vAssume(s.Inception <= s.Expiration)
 	inside := s.Inception <= now && now <= s.Expiration
-	kc := vU8("keyowner")
-	vAssume(kc >= 'a' && kc <= 'z' || kc >= 'A' && kc <= 'Z')
-	key := vTestKEY(string([]byte{kc})+"k.ex.", alg)
-	same := refLowerByte(kc) == refLowerByte(signer[0])
+	var keyOwner string
+	same := false
+	switch vChoice("keyowner", 4) {
+	case 0: // the signer name, one letter in either case
+		kc := vU8("keyowner")
+		vAssume(kc >= 'a' && kc <= 'z' || kc >= 'A' && kc <= 'Z')
+		keyOwner = string([]byte{kc}) + "k.ex."
+		same = refLowerByte(kc) == refLowerByte(signer[0])
+	case 1: // parent of the signer name
+		keyOwner = "ex."
+	case 2:
+		keyOwner = "."
+	default: // child of the signer name
+		keyOwner = "c." + signer
+	}
+	key := vTestKEY(keyOwner, alg)
 	vReach("window")
 	err := s.Verify(key, out)
 	vObserve("window", inside, same, err)
